@@ -47,6 +47,24 @@
                                                            unreachable and the formula does not extend to it)
   the constants                                            consts
 
+  WpD additions (audit D, section C19)
+  closed form of k `Next` calls; nextIter = the generator  nextIter_closed, nextIter_fresh, idgen_is_nextIter,
+                                                           nextIter_closed_full_fails (s = 0, k = 0 boundary)
+  which step counts lead from last to id; the least one    nextIter_eq_iff, stepsTo_is_least, wrapDistance_is_least_steps
+  window = "issued within < 500 further `Next` calls"      isnew_iff_steps, isnew_iff_least_steps,
+                                                           isnew_reachable_steps (after ANY history)
+  generator/receiver compatibility                         next_ids_are_new, recv_accepts_generated, recv_accepts_idgen,
+                                                           next_ids_are_new_500_full_fails (the bound is tight)
+  replay of the id just presented                          isnew_self, same_id_not_new_twice, accepted_not_new_again,
+                                                           older_id_new_iff, accepted_id_stays_old_full_fails (observation)
+  float→int64 implementation-defined cases, any platform   asid_float_oor_rejected, asid_float_oor_rejected_on,
+                                                           asid_known_platforms_benign, asid_iff_value_on,
+                                                           asid_every_platform_full_fails (hypothetical platform)
+  dynamic types outside the nine                           asid_other_rejected, asid_any_iff
+  String-level L2 functions = these byte-level functions   matchKind_policy, validUri_eq, validUri_iff_rule, prefixMatch_eq,
+    (in Nexus/L2/Proofs/WpDUriBridge.lean, namespace       wildcardMatch_eq, prefixMatch_string_iff, wildcardMatch_string_iff
+     Nexus.C19; that file imports this one)
+
   EDGE CASES of the URI rule (they are what the regexes do; the iff is exact):
   * the components are `strings.Split(uri, ".")`: the EMPTY URI is ONE EMPTY component.  Hence ""
     is rejected for exact use, but ACCEPTED for prefix use (its only component is the last one) and
@@ -71,10 +89,16 @@
     tied by the `uriid` correspondence family and a source hash.
   * `secureInt63n(n)` returns a value in `[0, n)` (its documentation; crypto/rand.Int).
   * Go's float→int64 conversion truncates toward zero when the result fits; out of range it is
-    implementation-defined (the model takes amd64's 0x8000000000000000; every choice is rejected).
+    implementation-defined (the model takes amd64's 0x8000000000000000).  "Every platform's choice
+    is rejected" is the theorem `asid_iff_value_on` under the explicit side condition
+    `FloatConv.Benign` (the platform's answers lie outside [1, 2^53]); amd64, arm64 and every
+    platform answering 0 / MinInt64 / MaxInt64 satisfy it (`asid_known_platforms_benign`); without the
+    side condition the sentence is false (`asid_every_platform_full_fails`).
 -/
 import Nexus.Uri.Lemmas
 import Nexus.Ids.Lemmas
+import Nexus.Ids.WpDSteps
+import Nexus.Ids.WpDAsID
 
 namespace Nexus.C19
 open Nexus.Uri Nexus.Uri.Regex Nexus.Ids Nexus.Gen
@@ -559,5 +583,397 @@ theorem isnew_arbitrary_last_full_fails : ¬ isnew_arbitrary_last_full := by
   have h2 : isNewRecvID 18446744073709551615 1 = false := by decide
   rw [h2] at h1
   cases h1
+
+/-! ## WpD — generator/receiver compatibility; the window as "least number of `Next` steps"
+    (audit a3, d1–d3) -/
+
+/-- Closed form of `k` calls of `IDGen.Next` starting from any issued id `s ∈ [1, 2^53]`: the
+    counter is `(s − 1 + k) mod 2^53 + 1` — for every `k` and every such `s`.  (Audit d1; this is
+    the lemma that was local to `wrapDistance_is_next_steps`.) -/
+theorem nextIter_closed (k : Nat) (s : UInt64) (h1 : 1 ≤ s.toNat) (h2 : s.toNat ≤ 2 ^ 53) :
+    (nextIter k s).toNat = (s.toNat - 1 + k) % 2 ^ 53 + 1 :=
+  WpD.nextIter_closed k s h1 h2
+
+-- non-vacuity: s = 1, s = 2^53 satisfy the hypotheses; 2^53 + 3 steps from 2^53 − 1 end at 2
+example : 1 ≤ (1 : UInt64).toNat ∧ (1 : UInt64).toNat ≤ 2 ^ 53 ∧ 1 ≤ MaxID_u64.toNat ∧ MaxID_u64.toNat ≤ 2 ^ 53 := by decide
+example : (nextIter (2 ^ 53 + 3) 9007199254740991).toNat = 2 := by
+  rw [nextIter_closed _ _ (by decide) (by decide)]; decide
+
+/-- The same from the FRESH generator (counter 0, not an id): after `k + 1` calls the counter is
+    `k mod 2^53 + 1`. -/
+theorem nextIter_fresh (k : Nat) : (nextIter (k + 1) 0).toNat = k % 2 ^ 53 + 1 :=
+  WpD.nextIter_fresh k
+
+/-- The closed form claimed for EVERY counter `s ≤ 2^53`, i.e. including the fresh counter 0. -/
+def nextIter_closed_full : Prop :=
+  ∀ (k : Nat) (s : UInt64), s.toNat ≤ 2 ^ 53 → (nextIter k s).toNat = (s.toNat - 1 + k) % 2 ^ 53 + 1
+
+/-- … is FALSE at the boundary `s = 0`, `k = 0` (zero calls leave the counter at 0, which is not an
+    id; the formula says 1).  `nextIter_closed` (hypothesis `1 ≤ s`) and `nextIter_fresh` (`s = 0`,
+    at least one call) together cover every reachable counter. -/
+theorem nextIter_closed_full_fails : ¬ nextIter_closed_full := by
+  intro h
+  have := h 0 0 (by decide)
+  revert this; decide
+
+/-- `nextIter` is the generator of the property: the state of a fresh `IDGen` after `n` calls is
+    `nextIter n 0`, and the n-th id issued (0-based) is `nextIter (n + 1) 0`.  So every statement
+    below about `nextIter k last` is about the ids `IDGen.Next` issues. -/
+theorem idgen_is_nextIter (n : Nat) : idGenState n = nextIter n 0 ∧ idGenSeq n = nextIter (n + 1) 0 :=
+  ⟨WpD.idGenState_eq_nextIter n, WpD.idGenSeq_eq_nextIter n⟩
+
+/-- EXACTLY which numbers of `Next` calls lead from an issued id `last` to an issued id `id`:
+    those congruent to `stepsTo last id = (id − last) mod 2^53` modulo the cycle length. -/
+theorem nextIter_eq_iff (k : Nat) (last id : UInt64)
+    (h1 : 1 ≤ last.toNat) (hl : last.toNat ≤ 2 ^ 53) (hi1 : 1 ≤ id.toNat) (hi2 : id.toNat ≤ 2 ^ 53) :
+    nextIter k last = id ↔ k % 2 ^ 53 = WpD.stepsTo last.toNat id.toNat :=
+  WpD.nextIter_eq_iff k last id h1 hl hi1 hi2
+
+/-- `stepsTo last id` is the LEAST number of `Next` calls from `last` to `id`: that many calls
+    arrive at `id`, and every `k` that arrives at `id` is at least that large. -/
+theorem stepsTo_is_least (last id : UInt64)
+    (h1 : 1 ≤ last.toNat) (hl : last.toNat ≤ 2 ^ 53) (hi1 : 1 ≤ id.toNat) (hi2 : id.toNat ≤ 2 ^ 53) :
+    nextIter (WpD.stepsTo last.toNat id.toNat) last = id ∧
+    ∀ k, nextIter k last = id → WpD.stepsTo last.toNat id.toNat ≤ k :=
+  ⟨WpD.nextIter_stepsTo last id h1 hl hi1 hi2, fun k h => WpD.stepsTo_le k last id h1 hl hi1 hi2 h⟩
+
+-- non-vacuity: from 2^53 − 2 to 3 the least count is 5; from 7 to 7 it is 0; from 3 to 2^53 − 2 it is 2^53 − 5
+example : WpD.stepsTo 9007199254740990 3 = 5 ∧ WpD.stepsTo 7 7 = 0 ∧
+    WpD.stepsTo 3 9007199254740990 = 9007199254740987 := by decide
+
+/-- Audit a3: `wrapDistance last id` (used in `isnew_in_words` / `isnew_reachable`) is not merely
+    SOME number of `Next` steps from `last` to a smaller `id` (`wrapDistance_is_next_steps`) but the
+    LEAST one, and every other step count that arrives at `id` differs from it by a multiple of the
+    cycle length `2^53`. -/
+theorem wrapDistance_is_least_steps (last id : UInt64)
+    (hid : 1 ≤ id.toNat) (hlt : id.toNat < last.toNat) (hlast : last.toNat ≤ 2 ^ 53)
+    (k : Nat) (hk : nextIter k last = id) :
+    wrapDistance last.toNat id.toNat ≤ k ∧ k % 2 ^ 53 = wrapDistance last.toNat id.toNat := by
+  have h := (WpD.nextIter_eq_iff k last id (by omega) hlast hid (by omega)).mp hk
+  unfold WpD.stepsTo at h
+  unfold wrapDistance
+  omega
+
+-- non-vacuity: 5 and 2^53 + 5 steps both lead from 2^53 − 2 to 3
+example : nextIter 5 9007199254740990 = 3 ∧ (2 ^ 53 + 5) % 2 ^ 53 = wrapDistance 9007199254740990 3 := by decide
+
+/-- Audit d1, the wrap-around window read as a number of `Next` steps (independent of the
+    arithmetic rearrangement `wrapDistance`): with a previous id `last ∈ [1, 2^53]`, a received id is
+    new exactly when it is a valid id and it is larger than `last` or the generator, continuing from
+    `last`, issues it within fewer than `deltaID = 500` further calls of `Next` (wrap included).
+    The statement proposed by the audit is correct as it stands, boundaries included (`k = 499` is
+    in, `k = 500` is out: `next_ids_are_new_500_full_fails`; `k = 0`, the same id, is out:
+    `isnew_self`). -/
+theorem isnew_iff_steps (last id : UInt64) (h1 : 1 ≤ last.toNat) (hl : last.toNat ≤ 2 ^ 53) :
+    isNewRecvID last id = true ↔
+      (1 ≤ id.toNat ∧ id.toNat ≤ 2 ^ 53) ∧
+      (id.toNat > last.toNat ∨ ∃ k, 1 ≤ k ∧ k < 500 ∧ nextIter k last = id) := by
+  rw [isNewRecvID_iff last id hl]
+  constructor
+  · rintro ⟨hv, h⟩
+    refine ⟨hv, ?_⟩
+    rcases h with h0 | hgt | ⟨hlt, hw⟩
+    · omega
+    · exact Or.inl hgt
+    · refine Or.inr ⟨wrapDistance last.toNat id.toNat, ?_, ?_,
+        wrapDistance_is_next_steps last id hv.1 hlt hl⟩ <;> unfold wrapDistance <;> omega
+  · rintro ⟨hv, h⟩
+    refine ⟨hv, ?_⟩
+    rcases h with hgt | ⟨k, hk1, hk2, hk⟩
+    · exact Or.inr (Or.inl hgt)
+    · have hc := WpD.nextIter_closed k last h1 hl
+      rw [hk] at hc
+      omega
+
+-- non-vacuity: last = 2^53 − 2; id 3 is 5 steps ahead (new), id 600 is not within 499 steps (not new)
+example : 1 ≤ (9007199254740990 : UInt64).toNat ∧ (9007199254740990 : UInt64).toNat ≤ 2 ^ 53 ∧
+    nextIter 5 9007199254740990 = 3 ∧ isNewRecvID 9007199254740990 3 = true ∧
+    isNewRecvID 9007199254740990 600 = false := by decide
+
+/-- The same with the LEAST step count made explicit: new ⇔ valid ∧ (larger ∨ the least number of
+    `Next` calls from `last` to `id` (`stepsTo_is_least`) lies in `[1, 500)`). -/
+theorem isnew_iff_least_steps (last id : UInt64) (h1 : 1 ≤ last.toNat) (hl : last.toNat ≤ 2 ^ 53) :
+    isNewRecvID last id = true ↔
+      (1 ≤ id.toNat ∧ id.toNat ≤ 2 ^ 53) ∧
+      (id.toNat > last.toNat ∨
+        (1 ≤ WpD.stepsTo last.toNat id.toNat ∧ WpD.stepsTo last.toNat id.toNat < 500)) := by
+  rw [isNewRecvID_iff last id hl]
+  unfold WpD.stepsTo
+  constructor <;> rintro ⟨hv, h⟩ <;> refine ⟨hv, ?_⟩ <;> omega
+
+example : WpD.stepsTo 9007199254740990 3 = 5 ∧ WpD.stepsTo 9007199254740990 600 = 602 := by decide
+
+/-- FULL STRENGTH over reachable states, in steps: after ANY history of received ids on a fresh
+    session, the next id is new ⇔ valid ∧ (nothing accepted yet ∨ larger than the last accepted ∨
+    issued by the generator within fewer than 500 `Next` calls after the last accepted id). -/
+theorem isnew_reachable_steps (history : List UInt64) (id : UInt64) :
+    let last := (recvRun 0 history).2
+    isNewRecvID last id = true ↔
+      (1 ≤ id.toNat ∧ id.toNat ≤ 2 ^ 53) ∧
+      (last.toNat = 0 ∨ id.toNat > last.toNat ∨ ∃ k, 1 ≤ k ∧ k < 500 ∧ nextIter k last = id) := by
+  intro last
+  have hl : last.toNat ≤ 2 ^ 53 := recv_last_invariant history 0 (by decide)
+  by_cases h0 : last.toNat = 0
+  · rw [isNewRecvID_iff last id hl]
+    constructor <;> rintro ⟨hv, _⟩ <;> exact ⟨hv, Or.inl h0⟩
+  · rw [isnew_iff_steps last id (by omega) hl]
+    constructor <;> rintro ⟨hv, h⟩ <;> refine ⟨hv, ?_⟩
+    · exact Or.inr h
+    · rcases h with h | h
+      · exact absurd h h0
+      · exact h
+
+/-- Audit d2, GENERATOR/RECEIVER COMPATIBILITY.  If the receiver's stored id is the sender's
+    generator counter `last ≤ 2^53` (0 = both fresh), every id the generator issues within the
+    next `k ∈ [1, 500)` calls of `Next` — i.e. the sender may skip up to 498 ids, over the wrap
+    too — is accepted as new.  (Stronger than proposed: `last = 0` is included.) -/
+theorem next_ids_are_new (last : UInt64) (hl : last.toNat ≤ 2 ^ 53) (k : Nat) (hk : 1 ≤ k ∧ k < 500) :
+    isNewRecvID last (nextIter k last) = true := by
+  have hr := WpD.nextIter_range k last hl (Or.inl hk.1)
+  by_cases h1 : 1 ≤ last.toNat
+  · exact (isnew_iff_steps last _ h1 hl).mpr ⟨hr, Or.inr ⟨k, hk.1, hk.2, rfl⟩⟩
+  · exact (isNewRecvID_iff last _ hl).mpr ⟨hr, Or.inl (by omega)⟩
+
+-- non-vacuity: fresh/fresh, mid-range, and across the wrap with the largest allowed skip
+example : isNewRecvID 0 (nextIter 1 0) = true ∧ isNewRecvID 41 (nextIter 1 41) = true ∧
+    nextIter 3 MaxID_u64 = 3 ∧ isNewRecvID MaxID_u64 (nextIter 3 MaxID_u64) = true := by decide
+example : isNewRecvID MaxID_u64 (nextIter 499 MaxID_u64) = true :=
+  next_ids_are_new MaxID_u64 (by decide) 499 (by omega)
+
+/-- The bound 500 of `next_ids_are_new` claimed to be 501 (i.e. `k = 500` allowed). -/
+def next_ids_are_new_500_full : Prop :=
+  ∀ last : UInt64, 1 ≤ last.toNat → last.toNat ≤ 2 ^ 53 → isNewRecvID last (nextIter 500 last) = true
+
+/-- … is FALSE: from `last = 2^53` the 500th next id is 500, and `2^53 − (2^53 − 500) = 500` is not
+    `< deltaID`.  So `k < 500` is exactly the window (this is the Go code's behaviour, and the
+    property's "allowed wrap-around window"; not a defect). -/
+theorem next_ids_are_new_500_full_fails : ¬ next_ids_are_new_500_full := by
+  intro h
+  have h500 : nextIter 500 MaxID_u64 = 500 := by
+    apply UInt64.toNat_inj.mp
+    rw [WpD.nextIter_closed 500 MaxID_u64 (by decide) (by decide), maxID_u64_toNat]
+    decide
+  have h1 := h MaxID_u64 (by decide) (by decide)
+  rw [h500] at h1
+  revert h1; decide
+
+/-- Ids a sender issues from counter `s` when it calls `Next` `k₁` times, sends the result, calls
+    `Next` `k₂` more times, sends, … (`kᵢ = 1`: consecutive ids; `kᵢ > 1`: ids skipped). -/
+def skipRun : UInt64 → List Nat → List UInt64
+  | _, [] => []
+  | s, k :: ks => nextIter k s :: skipRun (nextIter k s) ks
+
+/-- Compatibility over whole sequences: a receiver whose stored id equals the sender's counter
+    accepts EVERY id of such a sequence, however long (any number of wraps), as long as fewer than
+    499 ids are skipped between two consecutive messages; and afterwards its stored id is the
+    sender's counter again. -/
+theorem recv_accepts_generated (s : UInt64) (hs : s.toNat ≤ 2 ^ 53) (ks : List Nat)
+    (hks : ∀ k ∈ ks, 1 ≤ k ∧ k < 500) :
+    recvRun s (skipRun s ks) = (ks.map (fun _ => true), nextIter ks.sum s) := by
+  induction ks generalizing s with
+  | nil => rfl
+  | cons k ks ih =>
+    have hk := hks k (List.mem_cons_self ..)
+    have hnew := next_ids_are_new s hs k hk
+    have hr := WpD.nextIter_range k s hs (Or.inl hk.1)
+    have hu : updateLastRecvID s (nextIter k s) = (nextIter k s, true) := by
+      rw [updateLastRecvID_eq, hnew]; rfl
+    simp only [skipRun, recvRun, hu, List.map_cons, List.sum_cons]
+    rw [ih (nextIter k s) hr.2 (fun k' hk' => hks k' (List.mem_cons_of_mem _ hk')), WpD.nextIter_add]
+
+-- non-vacuity: from the fresh pair, skips 1, 3, 2 (and 499) satisfy the hypothesis
+example : (∀ k ∈ [1, 3, 2, 499], 1 ≤ k ∧ k < 500) ∧ skipRun 0 [1, 3, 2] = [1, 4, 6] ∧
+    recvRun 0 (skipRun 0 [1, 3, 2]) = ([true, true, true], 6) := by decide
+
+theorem recvRun_append (s : UInt64) (a b : List UInt64) :
+    recvRun s (a ++ b) = ((recvRun s a).1 ++ (recvRun (recvRun s a).2 b).1, (recvRun (recvRun s a).2 b).2) := by
+  induction a generalizing s with
+  | nil => rfl
+  | cons x a ih => simp only [List.cons_append, recvRun, ih]
+
+/-- The property's two halves meet: a fresh session receiving, in order, the first `n` ids a fresh
+    `IDGen` issues (`idGenSeq 0 … idGenSeq (n−1)`, the sequence of `idgen_closed_form`, through any
+    number of wraps) answers "new" to every one of them and ends with `lastRecvID` = the generator's
+    counter. -/
+theorem recv_accepts_idgen (n : Nat) :
+    recvRun 0 ((List.range n).map idGenSeq) = (List.replicate n true, idGenState n) := by
+  induction n with
+  | zero => rfl
+  | succ n ih =>
+    have hs : (idGenState n).toNat ≤ 2 ^ 53 := by
+      rw [WpD.idGenState_eq_nextIter]
+      cases n with
+      | zero => decide
+      | succ m => exact (WpD.nextIter_range (m + 1) 0 (by decide) (Or.inl (by omega))).2
+    have hnew : isNewRecvID (idGenState n) (idGenState (n + 1)) = true :=
+      next_ids_are_new (idGenState n) hs 1 (by omega)
+    have hseq : idGenSeq n = idGenState (n + 1) := ((idGenNext_toNat (idGenState n)).2).symm
+    rw [List.range_succ, List.map_append, recvRun_append, ih]
+    simp only [List.map_cons, List.map_nil, recvRun, hseq, updateLastRecvID_eq, hnew, if_true]
+    rw [List.replicate_succ']
+
+example : recvRun 0 ((List.range 3).map idGenSeq) = ([true, true, true], 3) := by decide
+
+/-- Audit d3: the id stored as last received is never new — for EVERY 64-bit value (0 and values
+    above 2^53 are invalid, any other value equals the stored one). -/
+theorem isnew_self (id : UInt64) : isNewRecvID id id = false := by
+  unfold isNewRecvID
+  by_cases h0 : id = 0
+  · simp [h0]
+  · by_cases hm : id > MaxID_u64
+    · simp [hm]
+    · simp [h0, hm, UInt64.lt_irrefl]
+
+/-- Audit d3, REPLAY of the id just presented: after `UpdateLastRecvID(id)` — whether it answered
+    "new" or not — the same id presented again is not new.  Holds for all 64-bit values, no
+    hypothesis. -/
+theorem same_id_not_new_twice (last id : UInt64) :
+    isNewRecvID (updateLastRecvID last id).1 id = false := by
+  rw [updateLastRecvID_eq]
+  cases h : isNewRecvID last id with
+  | true => exact isnew_self id
+  | false => exact h
+
+/-- The form proposed by the audit (hypothesis: the id was accepted). -/
+theorem accepted_not_new_again (last id : UInt64) (_h : isNewRecvID last id = true) :
+    isNewRecvID (updateLastRecvID last id).1 id = false :=
+  same_id_not_new_twice last id
+
+-- non-vacuity, and the run form: the second presentation is answered `false`
+example : isNewRecvID 41 42 = true ∧ (recvRun 41 [42, 42]).1 = [true, false] := by decide
+
+/-- How far replay protection goes: an id `id` smaller than the stored `last` (both valid) is new
+    again exactly when `last − id > 2^53 − 500`. -/
+theorem older_id_new_iff (last id : UInt64) (hid : 1 ≤ id.toNat) (hlt : id.toNat < last.toNat)
+    (hl : last.toNat ≤ 2 ^ 53) :
+    isNewRecvID last id = true ↔ last.toNat - id.toNat > 2 ^ 53 - 500 := by
+  rw [isNewRecvID_iff last id hl]
+  constructor
+  · rintro ⟨_, h⟩; omega
+  · intro h; exact ⟨by omega, by omega⟩
+
+example : 1 ≤ (5 : UInt64).toNat ∧ (5 : UInt64).toNat < MaxID_u64.toNat ∧ MaxID_u64.toNat ≤ 2 ^ 53 := by decide
+
+/-- "An id that was accepted is not accepted again once a later id has been accepted" — a
+    replay-protection reading STRONGER than the property text (which only says when an id counts
+    as new relative to the last one). -/
+def accepted_id_stays_old_full : Prop :=
+  ∀ last id id' : UInt64, isNewRecvID last id = true → isNewRecvID id id' = true →
+    isNewRecvID id' id = false
+
+/-- … is FALSE, of the model and of the Go code alike (by design of the wrap-around window, see the
+    comment on `IsNewRecvID` in wamp/session.go): on a fresh session the ids 5, 2^53, 5 are ALL
+    answered "new" — after a jump to within 500 of 2^53 the ids `1 … 499 − (2^53 − last)` are open
+    again although they may have been used (`older_id_new_iff` is the exact extent).  Recorded as an
+    observation, not as a violation of C19's text. -/
+theorem accepted_id_stays_old_full_fails : ¬ accepted_id_stays_old_full := by
+  intro h
+  have := h 0 5 MaxID_u64 (by decide) (by decide)
+  revert this; decide
+
+example : (recvRun 0 [5, MaxID_u64, 5]).1 = [true, true, true] := by decide
+
+/-! ## WpD — `AsID` on any platform and on any dynamic type (audit b "float out-of-range", d6, d7) -/
+
+/-- Audit d6.  WHATEVER int64 value `oor` a platform's conversion produces for a float operand whose
+    truncation `t` does not fit into int64 (or is NaN/±Inf: `t = none`), `AsID` rejects it —
+    provided that value is outside `[1, 2^53]`. -/
+theorem asid_float_oor_rejected (oor : Int64) (h : ¬ (1 ≤ oor.toInt ∧ oor.toInt ≤ 2 ^ 53))
+    (t : Option Int) (ht : WpD.fitsInt64 t = false) :
+    asIDOfInt64 (WpD.truncToInt64P oor t) = none := by
+  rw [WpD.truncToInt64P_oor oor t ht]
+  exact (asIDOfInt64_none_iff oor).mpr h
+
+-- non-vacuity: MinInt64 (amd64), 0 and MaxInt64 (saturating platforms) are such values; NaN, +Inf
+-- and 1e19 (≥ 2^63) are such operands
+example : ¬ (1 ≤ Int64.minValue.toInt ∧ Int64.minValue.toInt ≤ 2 ^ 53) ∧
+    ¬ (1 ≤ (0 : Int64).toInt ∧ (0 : Int64).toInt ≤ 2 ^ 53) ∧
+    ¬ (1 ≤ Int64.maxValue.toInt ∧ Int64.maxValue.toInt ≤ 2 ^ 53) :=
+  ⟨WpD.known_values_outside _ (Or.inr (Or.inl rfl)), WpD.known_values_outside _ (Or.inl rfl),
+   WpD.known_values_outside _ (Or.inr (Or.inr rfl))⟩
+example : WpD.fitsInt64 (f64Trunc 0x7ff8000000000000) = false ∧ WpD.fitsInt64 (f64Trunc 0x7ff0000000000000) = false ∧
+    WpD.fitsInt64 (f64Trunc 0x43E158E460913D00) = false ∧ WpD.fitsInt64 (f32Trunc 0x7fc00000) = false ∧
+    WpD.fitsInt64 (f64Trunc 0x4340000000000000) = true := by decide
+
+/-- The same for `AsID` itself on a platform `P` given as a function of the operand's bits (so
+    operand-dependent answers like arm64's NaN ↦ 0 / saturation are covered): a float64 / float32
+    value in an implementation-defined case is rejected whenever the platform's answer for it is
+    outside `[1, 2^53]`. -/
+theorem asid_float_oor_rejected_on (P : WpD.FloatConv) :
+    (∀ b : UInt64, WpD.fitsInt64 (f64Trunc b) = false →
+      ¬ (1 ≤ (P.oor64 b).toInt ∧ (P.oor64 b).toInt ≤ 2 ^ 53) → WpD.asIDP P (.float64 b) = none) ∧
+    (∀ b : UInt32, WpD.fitsInt64 (f32Trunc b) = false →
+      ¬ (1 ≤ (P.oor32 b).toInt ∧ (P.oor32 b).toInt ≤ 2 ^ 53) → WpD.asIDP P (.float32 b) = none) :=
+  ⟨fun _ hb h => asid_float_oor_rejected _ h _ hb, fun _ hb h => asid_float_oor_rejected _ h _ hb⟩
+
+/-- amd64 (the existing model: `asIDP amd64 = asID`) and arm64 are benign, and so is every platform
+    whose conversion only ever yields 0, MinInt64 or MaxInt64 in the implementation-defined cases
+    (all Go ports known to us). -/
+theorem asid_known_platforms_benign :
+    (∀ n, WpD.asIDP WpD.amd64 n = asID n) ∧ WpD.amd64.Benign ∧ WpD.arm64.Benign ∧
+    ∀ P : WpD.FloatConv,
+      (∀ b, P.oor64 b = 0 ∨ P.oor64 b = Int64.minValue ∨ P.oor64 b = Int64.maxValue) →
+      (∀ b, P.oor32 b = 0 ∨ P.oor32 b = Int64.minValue ∨ P.oor32 b = Int64.maxValue) → P.Benign :=
+  ⟨WpD.asIDP_amd64, WpD.amd64_benign, WpD.arm64_benign,
+   fun _ h64 h32 => ⟨fun b _ => WpD.known_values_outside _ (h64 b), fun b _ => WpD.known_values_outside _ (h32 b)⟩⟩
+
+/-- PLATFORM INDEPENDENCE of `asid_iff_value`: on every benign platform (`FloatConv.Benign`: its
+    answers in the implementation-defined cases are outside `[1, 2^53]`), for all nine
+    representations and every bit pattern, `AsID` accepts iff the mathematical value lies in
+    `[1, 2^53]`, and the id is that value.  This replaces the prose "every platform's choice is
+    rejected" of the trusted base by a theorem with the exact side condition. -/
+theorem asid_iff_value_on (P : WpD.FloatConv) (hP : P.Benign) (n : GoNum) (id : UInt64) :
+    WpD.asIDP P n = some id ↔ ∃ v, n.value = some v ∧ 1 ≤ v ∧ v ≤ 2 ^ 53 ∧ (id.toNat : Int) = v := by
+  rw [WpD.asIDP_eq_asID P hP n, asid_iff_value]
+
+example : WpD.asIDP WpD.arm64 (.float64 0x7ff8000000000000) = none ∧
+    WpD.asIDP WpD.arm64 (.float64 0x43E158E460913D00) = none ∧
+    WpD.asIDP WpD.arm64 (.float64 0x4340000000000000) = some 9007199254740992 := by decide
+
+/-- "`AsID` behaves the same on EVERY platform", without the side condition — the literal reading of
+    the trusted-base sentence "every platform's choice is rejected by AsID". -/
+def asid_every_platform_full : Prop := ∀ (P : WpD.FloatConv) (n : GoNum), WpD.asIDP P n = asID n
+
+/-- … is FALSE as a statement about the Go language (the honest counter-witness the audit asks
+    for): the spec allows a conversion that yields, say, 7 for NaN; on such a HYPOTHETICAL platform
+    `AsID(math.NaN())` would be `(7, true)` although NaN denotes no integer.  No existing Go port
+    behaves so (`asid_known_platforms_benign`); the side condition `Benign` is what has to be
+    trusted per platform. -/
+theorem asid_every_platform_full_fails : ¬ asid_every_platform_full := by
+  intro h
+  have := h WpD.hypothetical7 (.float64 0x7ff8000000000000)
+  revert this; decide
+
+example : WpD.asIDP WpD.hypothetical7 (.float64 0x7ff8000000000000) = some 7 ∧
+    (GoNum.float64 0x7ff8000000000000).value = none := by decide
+
+/-- Audit a2/d7: a value whose dynamic type is none of the nine cases of `AsInt64`'s switch
+    (int8/int16/uint8/uint16, string, nil, json.Number, …) is rejected by `AsID`.  (`GoVal`,
+    `asInt64Any`, `asIDAny` are WpD model ADDITIONS in Nexus/Ids/WpDAsID.lean — the fall-through
+    `return 0, false` of the switch and `AsID`'s `if …; ok` — they are hand-written and tied only by
+    reading; `gen ids` already shape-checks that the switch has no other case and no default.) -/
+theorem asid_other_rejected : WpD.asIDAny .other = none := rfl
+
+/-- "ids read from messages are accepted ONLY within that range", over every dynamic type:
+    accepted iff the value is one of the nine numeric representations AND its mathematical value
+    lies in `[1, 2^53]`; the id is that value. -/
+theorem asid_any_iff (v : WpD.GoVal) (id : UInt64) :
+    WpD.asIDAny v = some id ↔
+      ∃ n, v = .num n ∧ ∃ x, n.value = some x ∧ 1 ≤ x ∧ x ≤ 2 ^ 53 ∧ (id.toNat : Int) = x := by
+  cases v with
+  | other =>
+    constructor
+    · intro h; cases h
+    · rintro ⟨n, hn, _⟩; cases hn
+  | num n =>
+    have e : WpD.asIDAny (.num n) = asID n := rfl
+    rw [e, asid_iff_value]
+    constructor
+    · intro h; exact ⟨n, rfl, h⟩
+    · rintro ⟨n', hn, h⟩; cases hn; exact h
+
+example : WpD.asIDAny (.num (.int64 7)) = some 7 ∧ WpD.asIDAny (.num (.int64 0)) = none ∧
+    WpD.asInt64Any .other = (0, false) := by decide
+
 
 end Nexus.C19
